@@ -18,7 +18,9 @@ RULE = (
     "if one occurred, then every later notification; compared after EVERY command incl. each drain and a final drain "
     "(delivered lists exact; for an observer unsubscribed by ANOTHER observer during a drain: a prefix of its queue, no "
     "shorter than before the drain, nothing after the unsubscribe). Non-trivial: some subscription's replay is a strict, "
-    "non-empty subset of the values emitted so far. Distinct = distinct case JSON."
+    "non-empty subset of the values emitted so far. "
+    "A third check (falsy_error, run last) repeats short histories in which on_error is given a valid exception object whose "
+    "truth value is False (it defines __len__ == 0). Distinct = distinct case JSON."
 )
 ASSUMPTIONS = [
     "window and clock are integer ticks on a TestScheduler; 'within the window' is inclusive (age == window is retained), as in ReplaySubject._trim",
@@ -55,7 +57,7 @@ def checks(tier):
     n = 40 if tier == "quick" else 120
     return [
         Check("enum", _run, cases=_enum, shards={"quick": 8, "thorough": 16}, exhaustive=True),
-        Check("gen", _run, strategy=histories("replay", n), examples={"quick": 4000, "thorough": 16 * 20000}, shards={"quick": 8, "thorough": 16}),
+        Check("gen", _run, strategy=histories("replay", n), examples={"quick": 3200, "thorough": 16 * 20000}, shards={"quick": 8, "thorough": 16}),
         # last on purpose: a failure here must not cut the two searches above short
         Check("falsy_error", _run, strategy=histories("replay", 12, falsy_error=True), examples={"quick": 400, "thorough": 16 * 1000}, shards={"quick": 1, "thorough": 16}),
     ]
